@@ -353,6 +353,20 @@ struct Ctx {
         fflush(out);
     }
 
+    /// With --x-predump 1 the witness spec is written *before* the risky part of the case runs, so that the driver can
+    /// recover the input of a case that crashes the worker.
+    void predump() {
+        if (args.geti("predump", 0) && dumper) {
+            Spec s = dumper();
+            J j;
+            j.str("t", "predump").str("config", cfg.name).num("case", case_idx);
+            if (s.tokens() <= 300000)
+                j.raw("spec", s.json());
+            fprintf(out, "%s\n", j.done().c_str());
+            fflush(out);
+        }
+    }
+
     void sample(const J &extra) {
         J j;
         j.str("t", "sample").str("config", cfg.name).num("case", case_idx).str("traits", traits).raw("info", extra.done());
